@@ -167,7 +167,7 @@ def strategy():
         st.booleans(),
         st.sampled_from([False, False, False, True]),
         st.integers(0, 4),
-        P.programs(max_nodes=10, max_depth=4, values=H.hostile_values()),
+        P.programs(max_nodes=10, max_depth=4, values=H.hostile_values(), tb_outside=True),
     )
 
 
